@@ -526,6 +526,47 @@ def _under_context_guard(m: Func, node: ast.AST) -> bool:
     return False
 
 
+def _selector_consumed(ctx: Ctx, c: Cls, m: Func, node: ast.AST, val, bt, old) -> bool:
+    """The rescaling `bt` is applied only where a selector `F2 == K` holds, the other entries keep the
+    previous value, and the same store rewrites the selecting field F2 to a different constant exactly
+    where the selector holds: `where(F2 == K, <rescaled>, <old>)` next to `F2 <- where(F2 == K, K2, F2)`,
+    K2 != K.  After one validation the selector is false everywhere, so a second validation keeps the
+    value: the rewrite is idempotent although it multiplies the field by something."""
+    def where3(t):
+        return t[0] == "call" and t[1] == ("global", "numpy.where") and len(t[2]) == 3
+
+    def selector(mt):
+        # (field, K) of `<value of field F2 of self> == K`, K a module-level constant / enum member
+        if mt[0] != "cmp" or mt[1] != "==":
+            return None
+        for a, b in ((mt[2], mt[3]), (mt[3], mt[2])):
+            if b[0] not in ("global", "const"):
+                continue
+            flds = {s_[2] for s_ in subterms(a) if s_[0] == "attr" and s_[1][0] == "param" and m.positional and s_[1][-1] == m.positional[0]}
+            if len(flds) == 1 and not contains(a, lambda s_: s_[0] in ("binop", "aug", "unary")):
+                return next(iter(flds)), a, b
+        return None
+
+    for w in subterms(val):
+        if not where3(w):
+            continue
+        mt, a_, b_ = w[2]
+        if not contains(a_, lambda s_: s_ == bt) or contains(b_, lambda s_: s_[0] in ("binop", "aug")) or not contains(b_, old):
+            continue
+        sel = selector(mt)
+        if sel is None:
+            continue
+        f2, f2val, k = sel
+        # the sibling store of F2 in the same construct
+        for m2, node2, fld2, val2, _how in field_stores(ctx, c):
+            if m2 is not m or node2 is not node or fld2 != f2:
+                continue
+            for w2 in subterms(val2):
+                if where3(w2) and w2[2][0] == mt and w2[2][1][0] in ("global", "const") and w2[2][1] != k and w2[2][2] == f2val:
+                    return True
+    return False
+
+
 @rule(P)
 def c18_4(ctx: Ctx) -> RuleResult:
     res = RuleResult("C18.4", "IDEM", "no field is rewritten as a non-idempotent function of its own validated value outside a transform-context guard")
@@ -563,6 +604,8 @@ def c18_4(ctx: Ctx) -> RuleResult:
                     # x * 1 style: still non-idempotent unless the constant is neutral; keep simple
                     pass
                 if _under_context_guard(m, bn):
+                    continue
+                if bt is not None and _selector_consumed(ctx, c, m, node, val, bt, old):
                     continue
                 bad = bn
                 break
